@@ -144,11 +144,17 @@ pub fn run_history_all(name: &str, steps: &[Step]) -> Vec<String> {
                 let (_code, out) = env.run(true);
                 if env.tree(0) != ta || env.tree(1) != tb { bad!(format!("[{name}] step {si}: bisync --dry-run changed a file in a tree (C15)")); }
                 if env.home_snapshot() != th { bad!(format!("[{name}] step {si}: bisync --dry-run changed the recorded state under $HOME (archive rewritten) (C15)")); }
-                if ta == tb && !faulted && !out.contains("0 action(s)") && base == ta { bad!(format!("[{name}] step {si}: a dry run right after a completed run plans actions (C06): {}", out.lines().next().unwrap_or(""))); }
+                let _ = out;
             }
             S => {
                 let (ta, tb) = (env.tree(0), env.tree(1));
+                // idempotence (C06), observed without reading the program's messages: a copy publishes by rename, so a file the
+                // run delivered has a new inode
+                let inodes = |e: &Env| -> BTreeMap<String, u64> { use std::os::unix::fs::MetadataExt; let mut m = BTreeMap::new(); for sd in 0..2u8 { for p in e.tree(sd).keys() { if let Ok(md) = std::fs::metadata(e.side(sd).join(p)) { m.insert(format!("{sd}/{p}"), md.ino()); } } } m };
+                let settled = ta == tb && base == ta && !faulted;
+                let ino0 = inodes(&env);
                 let (code, out) = env.run(false);
+                if settled { let ino1 = inodes(&env); if ino1 != ino0 { let d: Vec<&String> = ino0.keys().chain(ino1.keys()).filter(|k| ino0.get(*k) != ino1.get(*k)).collect(); bad!(format!("[{name}] step {si}: a run right after a completed run, with nothing changed, rewrote {d:?} (C06 idempotence)")); } }
                 let (na, nb) = (env.tree(0), env.tree(1));
                 let completed = code == Some(0) || out.contains("conflict(s) preserved");
                 if code.is_none() || code == Some(101) || code == Some(134) { stop!(format!("[{name}] step {si}: bisync crashed: {}", out.chars().take(200).collect::<String>())); }
@@ -216,7 +222,8 @@ pub fn trace_flush_order() -> Option<String> {
             if let (Some(path), Some(fd)) = (q(rest, 0), rest.rsplit("= ").next()) {
                 // the world model's discipline, observed: a NON-atomic write (open for writing / create / truncate) only ever
                 // targets a reserved staging name; live paths of the trees change by rename and unlink only
-                let writes = ["O_WRONLY", "O_RDWR", "O_CREAT", "O_TRUNC"].iter().any(|f| rest.contains(f)) || rest.starts_with("creat(");
+                // creation or truncation in place (a bare O_WRONLY open, e.g. to stamp an mtime, writes no content by itself)
+                let writes = ["O_CREAT", "O_TRUNC"].iter().any(|f| rest.contains(f)) || rest.starts_with("creat(");
                 if writes && (path.starts_with(&ra) || path.starts_with(&rb)) && !path.ends_with(".copia-tmp") && fd.trim().chars().all(|c| c.is_ascii_digit()) {
                     return Some(format!("syscall trace of a propagating bisync: {:?} inside a synchronised tree is opened for writing/creation directly ({}) - a kill during that copy leaves a truncated file at a live path; only *.copia-tmp names may be written non-atomically (C08)", path.rsplit('/').next().unwrap_or(""), rest.split(',').nth(1).or(rest.split(',').nth(2)).unwrap_or("").trim().chars().take(60).collect::<String>()));
                 }
